@@ -159,6 +159,27 @@ func helpOracle(final *getoptions.VerifDump, text string) []OracleHit {
 			}
 		}
 	}
+	// declared positional arguments that have a name and a description are listed once
+	for _, a := range n.SynopsisArgs {
+		if a[0] == "" || a[1] == "" || strings.ContainsAny(a[0], " \t\n") {
+			continue
+		}
+		cnt := 0
+		for _, line := range strings.Split(sections["ARGUMENTS"], "\n") {
+			if strings.HasPrefix(line, "    "+a[0]+" ") || line == "    "+a[0] {
+				cnt++
+			}
+		}
+		dup := 0
+		for _, b := range n.SynopsisArgs {
+			if b[0] == a[0] {
+				dup++
+			}
+		}
+		if cnt != dup {
+			add("help-argument", fmt.Sprintf("declared argument %q (%q) is listed %d times in the ARGUMENTS section", a[0], a[1], cnt))
+		}
+	}
 	// commands
 	for _, k := range n.CommandKeys {
 		if k == n.HelpCommandName {
